@@ -137,6 +137,305 @@ def o2(tier):
     return ob.done(cases=len(paths))
 
 
+def field_uid(base, *idx):
+    return base + ''.join(f'.{i}' for i in idx)
+
+
+def ev_index(p, e):
+    for i, x in enumerate(p.trace):
+        if x is e:
+            return i
+    return -1
+
+
+def first(p, *names):
+    for i, e in enumerate(p.trace):
+        if ev_is(e, *names):
+            return i, e
+    return None, None
+
+
+def all_ev(p, *names):
+    return [(i, e) for i, e in enumerate(p.trace) if ev_is(e, *names)]
+
+
+def res_ok(ob, p, e):
+    """pc => e returned Ok"""
+    return ob.eng.prove(p, e.ret.discriminant() == 0)[0]
+
+
+@guard
+def o3(tier):
+    """process_commit: validate before snapshot before merge; rejection leaves nothing behind"""
+    ob = Ob('O3', 'process_commit: both validators and the snapshot precede the merge; any of them failing returns Err with no state-changing call; eviction path only deactivates',
+            pure=C.PURE_MLS)
+    f = ob.fn(VALID, 'commit::process_commit')
+    args = [Opaque('self', '&MDK<Storage>'), Opaque('mls_group', '&mut openmls::group::MlsGroup'), Opaque('event', '&nostr::Event'),
+            Opaque('staged_commit', 'StagedCommit'), Opaque('sender', '&openmls::framing::Sender')]
+    paths = ob.explore(f, args)
+    ob.r.bounds = {'paths': 'all', 'callees': 'uninterpreted, any result'}
+    n_merge = n_evict = n_full = 0
+    for p in paths:
+        if p.kind == 'panic':
+            ob.require(False, 'O3/panic', f'process_commit can panic: {p.msg}', p); continue
+        sh = ret_shape(p.ret)
+        ia, ea = first(p, 'validate_commit_authorization')
+        ii, ei = first(p, 'validate_commit_identities')
+        isn, es = first(p, 'EpochSnapshotManager::create_snapshot')
+        im, em = first(p, 'merge_staged_commit')
+        writes = [(i, e) for i, e in enumerate(p.trace) if is_write(e)]
+        if im is not None:
+            n_merge += 1
+            ok = ob.require(None not in (ia, ii, isn) and ia < im and ii < im and isn < im and ia < isn and ii < isn, 'O3/order',
+                            f'merge not preceded by authorization, identity validation and snapshot: {[e.short for e in p.trace]}', p)
+            if ok:
+                ob.require(res_ok(ob, p, ea) and res_ok(ob, p, ei), 'O3/merge-after-failed-validation', 'merge reached although a validator returned Err', p)
+                ob.require(res_ok(ob, p, es), 'O3/merge-after-failed-snapshot', 'merge reached although create_snapshot returned Err', p)
+                # arguments of the snapshot: pre-merge epoch of this group, wrapper id and created_at
+                ep = [e for e in p.trace[:isn] if ev_is(e, 'MlsGroup::epoch')]
+                ob.require(bool(ep) and 'as_u64' in uid_of(ob.eng, p.st, es.args[3]) and uid_of(ob.eng, p.st, ep[-1].ret) in uid_of(ob.eng, p.st, es.args[3]),
+                           'O3/snapshot-epoch', 'snapshot epoch is not the epoch read from the MLS group before the merge', p)
+                ob.require(uid_of(ob.eng, p.st, es.args[4]) == '*event.0', 'O3/snapshot-id', f'snapshot commit id is not the wrapper event id ({uid_of(ob.eng, p.st, es.args[4])})', p)
+                ob.require('*event.2' in uid_of(ob.eng, p.st, es.args[5]), 'O3/snapshot-ts', f'snapshot timestamp is not the wrapper created_at ({uid_of(ob.eng, p.st, es.args[5])})', p)
+                ob.require(uid_of(ob.eng, p.st, ea.args[2]) == uid_of(ob.eng, p.st, em.args[2]) and uid_of(ob.eng, p.st, ei.args[2]) == uid_of(ob.eng, p.st, em.args[2]),
+                           'O3/validated-other-commit', 'the staged commit validated is not the one merged', p)
+            # after the merge
+            io, eo = first(p, 'own_leaf')
+            if res_ok(ob, p, em) and io is not None:
+                evicted = ob.eng.prove(p, eo.ret.discriminant() == 0)[0]
+                post = [e for i, e in writes if i > im]
+                if evicted:
+                    n_evict += 1
+                    ob.require([e.short.split('::')[-1] for e in post] == ['handle_local_member_eviction'], 'O3/eviction-path',
+                               f'after own removal expected only handle_local_member_eviction, got {[e.short for e in post]}', p)
+                    ob.require(not [e for e in p.trace[im:] if ev_is(e, 'exporter_secret')], 'O3/evicted-exports-secret', 'exporter secret requested after own eviction', p)
+                elif sh[0] == 'Ok':
+                    n_full += 1
+                    names = [e.short.split('::')[-1] for e in p.trace[im + 1:] if ev_is(e, 'exporter_secret', 'sync_group_metadata_from_mls', 'save_processed_message_record')]
+                    ob.require(names == ['exporter_secret', 'sync_group_metadata_from_mls', 'save_processed_message_record'], 'O3/post-merge-sequence',
+                               f'post-merge bookkeeping is {names}', p)
+                    rec = [e for e in p.trace if ev_is(e, 'create_processed_message_record')]
+                    ob.require(bool(rec) and vname(rec[-1].args[4]) == 'ProcessedCommit', 'O3/record-state', 'commit is not recorded as ProcessedCommit', p)
+        else:
+            ob.require(sh[0] == 'Err', 'O3/ok-without-merge', f'returns {sh} without merging', p)
+            allowed = [e for i, e in writes if not ev_is(e, 'EpochSnapshotManager::create_snapshot')]
+            ob.require(not allowed, 'O3/reject-with-effects', f'rejected commit performed {[e.short for e in allowed]}', p)
+            if ia is not None and not res_ok(ob, p, ea):
+                ob.require(isn is None and ii is None, 'O3/continue-after-authz-failure', 'processing continues after authorization failed', p)
+            if isn is not None:
+                ob.require(res_ok(ob, p, ea) and ii is not None and res_ok(ob, p, ei), 'O3/snapshot-before-validation', 'snapshot taken before validation succeeded', p)
+    ob.require(n_merge and n_evict and n_full, 'O3/vacuity', f'merge={n_merge} evict={n_evict} full={n_full}')
+    ob.r.vacuity.append(f'{len(paths)} paths: {n_merge} reach the merge, {n_evict} eviction, {n_full} complete')
+    ob.sample({'function': 'process_commit', 'paths': [dict(result=str(ret_shape(p.ret)), calls=[e.short for e in p.trace if not ev_is(e, 'MDK::storage')]) for p in paths[:5]]})
+    return ob.done(cases=len(paths))
+
+
+@guard
+def o4(tier):
+    """process_proposal: proposals never take effect by themselves"""
+    ob = Ob('O4', 'process_proposal: nothing is committed except an admin receiver auto-committing a member\'s own leave; Add/Remove are only queued; others ignored; non-members refused',
+            pure=C.PURE_MLS | {'QueuedProposal::sender', 'QueuedProposal::proposal'}, inline={'store_pending_proposal', 'mark_processed', 'auto_commit_proposal'})
+    f = ob.fn(VALID, 'proposal::process_proposal')
+    args = [Opaque('self', '&MDK<Storage>'), Opaque('mls_group', '&mut openmls::group::MlsGroup'), Opaque('event', '&nostr::Event'),
+            Opaque('staged_proposal', 'openmls::group::QueuedProposal')]
+    paths = ob.explore(f, args)
+    kinds = ob.prog.cat.variants('Proposal', 'openmls::messages::proposals')
+    n_auto = n_pending = n_ignored = 0
+    for p in paths:
+        if p.kind == 'panic':
+            ob.require(False, 'O4/panic', f'process_proposal can panic: {p.msg}', p); continue
+        sh = ret_shape(p.ret)
+        st = p.st
+        sender_d = z3.BitVec('*QueuedProposal::sender(staged_proposal)#d', 64)
+        kind_d = z3.BitVec('*QueuedProposal::proposal(staged_proposal)#d', 64)
+        commits = all_ev(p, 'commit_to_pending_proposals', 'merge_pending_commit', 'merge_staged_commit')
+        stores = all_ev(p, 'store_pending_proposal')
+        mls_mut = [e for e in p.trace if ev_is(e, *MLS_MUTATORS)]
+        adm = [e for e in p.trace if ev_is(e, 'is_leaf_node_admin')]
+        if commits:
+            n_auto += 1
+            ob.prove(p, z3.And(sender_d == 0, kind_d == kinds.index('Remove')), 'O4/autocommit-kind', 'a proposal other than a member Remove is auto-committed')
+            ob.require(bool(adm) and ob.eng.prove(p, z3.And(adm[0].ret.discriminant() == 0, adm[0].ret.child('Ok', 0, 'bool')))[0], 'O4/autocommit-nonadmin',
+                       'auto-commit by a receiver that is not an admin', p)
+            # remover == removed
+            eqs = [c for c in p.pc if 'RemoveProposal::removed' in str(c) and 'eq(' in str(c)]
+            ob.require(any(not str(c).startswith('Not(') for c in eqs), 'O4/autocommit-not-self-remove', 'auto-commit of a Remove proposal that is not the sender removing itself', p)
+            ob.require(sh == ('Ok', 'Proposal') or sh[0] == 'Err', 'O4/autocommit-result', f'auto-commit returns {sh}', p)
+        if stores:
+            ob.prove(p, z3.And(sender_d == 0, z3.Or(kind_d == kinds.index('Add'), kind_d == kinds.index('Remove'))), 'O4/stored-kind',
+                     'a proposal other than Add/Remove from a member is stored as pending')
+            mem = [e for e in p.trace if ev_is(e, 'member_at')]
+            ob.require(bool(mem) and ob.eng.prove(p, mem[0].ret.discriminant() == 1)[0], 'O4/stored-from-nonmember', 'proposal stored although the sender leaf is not a member', p)
+        if sh == ('Ok', 'PendingProposal'):
+            n_pending += 1
+            ob.require(bool(stores) and not commits, 'O4/pending-shape', 'PendingProposal result without storing / with a commit', p)
+        if sh == ('Ok', 'IgnoredProposal'):
+            n_ignored += 1
+            ob.require(not mls_mut, 'O4/ignored-with-effects', f'ignored proposal performed {[e.short for e in mls_mut]}', p)
+            w = [e.short.split('::')[-1] for e in p.trace if is_write(e)]
+            ob.require(set(w) <= {'save_processed_message_record'}, 'O4/ignored-writes', f'ignored proposal wrote {w}', p)
+        if sh[0] == 'Err':
+            holds_nm = ob.eng.prove(p, sender_d != 0)[0]
+            if holds_nm:
+                ob.require(not [e for e in p.trace if is_write(e)], 'O4/nonmember-effects', 'non-member proposal had effects', p)
+        if ob.eng.prove(p, sender_d != 0)[0]:
+            ob.require(sh[0] == 'Err', 'O4/nonmember-accepted', f'proposal from a non-member sender yields {sh}', p)
+        mem = [e for e in p.trace if ev_is(e, 'member_at')]
+        if mem and ob.eng.prove(p, mem[0].ret.discriminant() == 0)[0]:
+            ob.require(sh == ('Err', 'MessageFromNonMember') and not [e for e in p.trace if is_write(e)], 'O4/unknown-member', f'unknown member yields {sh}', p)
+    ob.require(n_auto and n_pending and n_ignored, 'O4/vacuity', f'auto={n_auto} pending={n_pending} ignored={n_ignored}')
+    ob.r.vacuity.append(f'{len(paths)} paths: auto-commit {n_auto}, pending {n_pending}, ignored {n_ignored}')
+    ob.r.bounds = {'paths': 'all', 'proposal kind / sender': 'symbolic discriminants'}
+    ob.sample({'function': 'process_proposal', 'paths': [dict(result=str(ret_shape(p.ret)), calls=[e.short for e in p.trace if is_write(e)]) for p in paths[:8]]})
+    return ob.done(cases=len(paths))
+
+
+@guard
+def o5(tier):
+    """identity of an existing member never changes"""
+    K = 2 if tier == 'quick' else 3
+    ob = Ob('O5', 'validate_identity_unchanged is Ok iff identities are equal; validate_proposal_identity / validate_commit_identities apply it to every Update proposal and to the update path',
+            pure=C.PURE_MLS | {'QueuedProposal::sender', 'QueuedProposal::proposal'}, inline={'parse_credential_identity'})
+    # (a) the kernel
+    f = ob.fn(VALID, 'validation::validate_identity_unchanged')
+    a, b = Opaque('cur', 'nostr::key::PublicKey'), Opaque('new', 'nostr::key::PublicKey')
+    paths = ob.explore(f, [a, b])
+    eq = M.val_eq(ob.eng, a, b)
+    for p in paths:
+        ok = (vname(p.ret) == 'Ok')
+        ob.prove(p, eq if ok else z3.Not(eq), 'O5/kernel', 'validate_identity_unchanged result does not match identity equality')
+        if not ok:
+            ob.require(ret_shape(p.ret) == ('Err', 'IdentityChangeNotAllowed'), 'O5/kernel-kind', f'{ret_shape(p.ret)}', p)
+    total = len(paths)
+    # (b) validate_proposal_identity
+    ob.new_engine(pure=C.PURE_MLS, inline={'parse_credential_identity'})
+    f = ob.fn(VALID, 'validation::validate_proposal_identity')
+    args = [Opaque('self', '&MDK<Storage>'), Opaque('mls_group', '&openmls::group::MlsGroup'), Opaque('proposal', '&openmls::prelude::Proposal'),
+            Opaque('sender', '&openmls::framing::Sender')]
+    paths = ob.explore(f, args)
+    total += len(paths)
+    upd = ob.prog.cat.variants('Proposal', 'openmls::messages::proposals').index('Update')
+    kind_d, sender_d = z3.BitVec('*proposal#d', 64), z3.BitVec('*sender#d', 64)
+    n_checked = 0
+    for p in paths:
+        sh = ret_shape(p.ret)
+        mem = [e for e in p.trace if ev_is(e, 'member_at')]
+        viu = [e for e in p.trace if ev_is(e, 'validate_identity_unchanged')]
+        is_upd_member = ob.eng.prove(p, z3.And(kind_d == upd, sender_d == 0))[0]
+        if sh[0] == 'Ok' and is_upd_member and mem and ob.eng.prove(p, mem[0].ret.discriminant() == 1)[0]:
+            n_checked += 1
+            if ob.require(len(viu) == 1, 'O5/proposal-unchecked', 'an Update proposal from a known member is accepted without the identity comparison', p):
+                ob.require(res_ok(ob, p, viu[0]), 'O5/proposal-check-ignored', 'identity comparison failed but the proposal is accepted', p)
+                ua, ub = uid_of(ob.eng, p.st, viu[0].args[0]), uid_of(ob.eng, p.st, viu[0].args[1])
+                ob.require('from_slice' in ua and 'from_slice' in ub and ua != ub, 'O5/proposal-compare-args', f'compares {ua} with {ub}', p)
+                ids = [e for e in p.trace if ev_is(e, 'BasicCredential::identity')]
+                srcs = [uid_of(ob.eng, p.st, e.args[0]) for e in ids]
+                ob.require(len(ids) == 2, 'O5/proposal-identities', f'identities read: {srcs}', p)
+                tf = [e for e in p.trace if ev_is(e, 'try_from')]
+                s0 = [uid_of(ob.eng, p.st, e.args[0]) for e in tf]
+                ob.require(len(tf) == 2 and 'member_at' in s0[0] and ('leaf_node' in s0[1] or 'LeafNode' in s0[1]), 'O5/proposal-sources',
+                           f'credentials compared come from {s0}', p)
+        if viu and not res_ok(ob, p, viu[0]):
+            ob.require(sh[0] == 'Err', 'O5/proposal-err-swallowed', 'identity change detected but Ok returned', p)
+    ob.require(n_checked >= 1, 'O5/vacuity-proposal', 'no accepted Update path')
+    # (c) validate_commit_identities over bounded lists
+    ob.new_engine(pure=C.PURE_MLS, inline={'parse_credential_identity'}, models=C.staged_commit_models(K), loop_bound=K + 3)
+    f = ob.fn(VALID, 'validation::validate_commit_identities')
+    args = [Opaque('self', '&MDK<Storage>'), Opaque('mls_group', '&openmls::group::MlsGroup'), Opaque('staged', '&StagedCommit'),
+            Opaque('sender', '&openmls::framing::Sender')]
+    paths = ob.explore(f, args)
+    total += len(paths)
+    n_ok = 0
+    for p in paths:
+        if p.kind == 'panic':
+            ob.require(False, 'O5/panic', p.msg, p); continue
+        sh = ret_shape(p.ret)
+        lst = p.st.ext.get('props', {}).get('staged')
+        vpi = [e for e in p.trace if ev_is(e, 'validate_proposal_identity')]
+        viu = [e for e in p.trace if ev_is(e, 'validate_identity_unchanged')]
+        pl = [e for e in p.trace if ev_is(e, 'update_path_leaf_node')]
+        if sh[0] == 'Ok':
+            n_ok += 1
+            if not ob.require(lst is not None and pl, 'O5/commit-not-inspected', 'Ok without inspecting proposals and update path', p):
+                continue
+            n_upd = sum(1 for q in lst if ob.eng.prove(p, q['kind'] == upd)[0])
+            n_maybe = sum(1 for q in lst if not ob.eng.prove(p, q['kind'] != upd)[0])
+            ob.require(n_upd == n_maybe and len(vpi) == n_upd, 'O5/commit-update-unchecked', f'{n_upd} Update proposals but {len(vpi)} identity validations', p)
+            for e in vpi:
+                ob.require(res_ok(ob, p, e), 'O5/commit-proposal-err-ignored', 'an Update proposal failed identity validation but the commit is accepted', p)
+            has_path = ob.eng.prove(p, pl[0].ret.discriminant() == 1)[0]
+            mem = [e for e in p.trace if ev_is(e, 'member_at')]
+            if has_path and ob.eng.prove(p, z3.BitVec('*sender#d', 64) == 0)[0] and mem and ob.eng.prove(p, mem[0].ret.discriminant() == 1)[0]:
+                if ob.require(len(viu) == 1, 'O5/path-unchecked', 'update path accepted without identity comparison', p):
+                    ob.require(res_ok(ob, p, viu[0]), 'O5/path-check-ignored', 'update path identity comparison failed but accepted', p)
+                    ua, ub = uid_of(ob.eng, p.st, viu[0].args[0]), uid_of(ob.eng, p.st, viu[0].args[1])
+                    ob.require(ua != ub and 'from_slice' in ua and 'from_slice' in ub, 'O5/path-compare-args', f'{ua} vs {ub}', p)
+        for e in vpi + viu:
+            if not res_ok(ob, p, e) and ob.eng.prove(p, e.ret.discriminant() == 1)[0]:
+                ob.require(sh[0] == 'Err', 'O5/commit-err-swallowed', 'identity validation failed but Ok returned', p)
+    ob.require(n_ok >= 2, 'O5/vacuity-commit', f'ok paths {n_ok}')
+    ob.r.bounds = {'update proposals per commit': f'0..{K}', 'paths': 'all'}
+    ob.r.assumptions += C.CONTRACT_TEXT
+    ob.r.vacuity.append(f'{total} paths over three functions; {n_checked} accepted Update proposals, {n_ok} accepted commits')
+    return ob.done(cases=total)
+
+
+@guard
+def o6(tier):
+    """sender side: the admin check dominates every roster / group-data mutation"""
+    ob = Ob('O6', 'add_members / remove_members / update_group_data_extension: is_leaf_node_admin(own leaf) == Ok(true) precedes the OpenMLS mutation; is_leaf_node_admin reads the current MLS extension',
+            pure=C.PURE_MLS, loop_bound=4)
+    total = 0
+    specs = [('groups::add_members', ['&MDK<Storage>', '&mdk_storage_traits::GroupId', '&[nostr::Event]'], 'add_members'),
+             ('groups::remove_members', ['&MDK<Storage>', '&mdk_storage_traits::GroupId', '&[nostr::key::PublicKey]'], 'remove_members'),
+             ('groups::update_group_data_extension', ['&MDK<Storage>', '&mut openmls::group::MlsGroup', '&mdk_storage_traits::GroupId', '&NostrGroupDataExtension'], 'update_group_context_extensions')]
+    hits = 0
+    for spec, tys, mut in specs:
+        f = ob.fn(VALID, spec)
+        args = [Opaque(f'a{i}', t) for i, t in enumerate(tys)]
+        paths = ob.explore(f, args)
+        total += len(paths)
+        for p in paths:
+            if p.kind == 'panic':
+                continue
+            muts = [(i, e) for i, e in enumerate(p.trace) if ev_is(e, mut)]
+            if not muts:
+                continue
+            hits += 1
+            i0 = muts[0][0]
+            adm = [(i, e) for i, e in enumerate(p.trace[:i0]) if ev_is(e, 'is_leaf_node_admin')]
+            if not ob.require(bool(adm), f'O6/{mut}/no-admin-check', f'{mut} reached without is_leaf_node_admin', p):
+                continue
+            e = adm[-1][1]
+            ob.require(ob.eng.prove(p, z3.And(e.ret.discriminant() == 0, e.ret.child('Ok', 0, 'bool')))[0], f'O6/{mut}/check-ignored',
+                       f'{mut} reached although is_leaf_node_admin did not return Ok(true)', p)
+            ob.require('own_leaf' in uid_of(ob.eng, p.st, e.args[2]), f'O6/{mut}/wrong-leaf', f'admin check on {uid_of(ob.eng, p.st, e.args[2])}, not the own leaf', p)
+    ob.require(hits >= 3, 'O6/vacuity', f'mutating paths found: {hits}')
+    # is_leaf_node_admin itself
+    ob.new_engine(pure=C.PURE_MLS)
+    f = ob.fn(VALID, 'groups::is_leaf_node_admin')
+    paths = ob.explore(f, [Opaque('self', '&MDK<Storage>'), Opaque('group_id', '&mdk_storage_traits::GroupId'), Opaque('leaf', '&openmls::treesync::LeafNode')])
+    total += len(paths)
+    n = 0
+    for p in paths:
+        if vname(p.ret) != 'Ok':
+            continue
+        n += 1
+        c = [e for e in p.trace if ev_is(e, 'contains')]
+        fg = [e for e in p.trace if ev_is(e, 'from_group')]
+        lg = [e for e in p.trace if ev_is(e, 'load_mls_group')]
+        pk = [e for e in p.trace if ev_is(e, 'pubkey_for_leaf_node')]
+        if ob.require(len(c) == 1 and len(fg) == 1 and len(lg) == 1 and len(pk) == 1, 'O6/admin-shape', f'{[e.short for e in p.trace]}', p):
+            ob.prove(p, p.ret.fields[0] == c[0].ret, 'O6/admin-result', 'is_leaf_node_admin result is not the membership test')
+            ob.require(derived_from(ob.eng, p.st, fg[0].args[0], lg[0]), 'O6/admin-ext-source', 'extension not parsed from the loaded MLS group', p)
+            ob.require(derived_from(ob.eng, p.st, c[0].args[0], fg[0]) and derived_from(ob.eng, p.st, c[0].args[1], pk[0]), 'O6/admin-args', 'membership test on wrong set/key', p)
+            ob.require(uid_of(ob.eng, p.st, lg[0].args[1]) == 'group_id' and uid_of(ob.eng, p.st, pk[0].args[1]) == 'leaf', 'O6/admin-inputs', 'wrong group / leaf', p)
+    ob.require(n >= 1, 'O6/vacuity2', 'no Ok path in is_leaf_node_admin')
+    ob.r.bounds = {'paths': 'all', 'loops over key packages / members': 'unrolled to 2 elements'}
+    ob.r.vacuity.append(f'{total} paths, {hits} reach an OpenMLS roster/data mutation')
+    return ob.done(cases=total)
+
+
 def run(tier, seed, only=None):
-    obs = [('O1', o1), ('O2', o2)]
+    obs = [('O1', o1), ('O2', o2), ('O3', o3), ('O4', o4), ('O5', o5), ('O6', o6)]
     return [f(tier) for k, f in obs if not only or k in only]
